@@ -58,6 +58,25 @@ CHECKS = {
                      "local close with and without reason; pump goroutines are attributed per scenario from the goroutine dump and "
                      "net.Conn.Close calls are counted.", ref="6.C13",
                 note="trusted: gorilla/websocket, loopback TCP, TLC; pump termination is read from runtime.Stack"),
+    "C02": dict(engine="tables", technique="TLA+ decision table CertGate (enumerated and sanity-checked by TLC) evaluated row by row on a real hub over TLS, TLC monitor",
+                text="The requirement is a TLA+ decision table over (client certificate, SKI length, binding of the SKI to the key, TLS "
+                     "version, sub-protocol offer), outbound (dialled vs presented SKI / key) and generator subjects. TLC enumerates it; "
+                     "each row is executed against a real hub.Hub on loopback (forged x509 certificates, raw crypto/tls + gorilla "
+                     "clients, an adversarial TLS server for outbound dials); the monitor evaluates Judge(row, observed). This is an "
+                     "input-space property of a gate: the specification contributes the exhaustive table, not interleavings.", ref="6.C02",
+                note="trusted: TLC, crypto/tls, crypto/x509, gorilla/websocket; 'SHIP processing started' = the hub answers / sends the init message"),
+    "C07": dict(engine="tables", technique="TLA+ token model of the EEBUS JSON shape and of the textual inverse, exhaustive over bounded documents (TLC), each document run through the real transform, TLC monitor",
+                text="EebusJson.tla states the SHIP shape (ToEebus) and transcribes the four ReplaceAll passes of JsonFromEEBUSJson over "
+                     "character tokens; TLC proves Benign(d) => RoundTrip(d) for every bounded document and witnesses the three failing "
+                     "classes. Every enumerated document is rendered, sent through the real JsonIntoEEBUSJson / JsonFromEEBUSJson and the "
+                     "tokenised outputs are compared with Wire(d) / Ser(d) by the monitor.", ref="6.C07",
+                note="trusted: TLC, encoding/json, the ordered-json library; documents are bounded (depth 2, two members, a token alphabet)"),
+    "C16": dict(engine="tables", technique="TLA+ requirement operators over abstract strings (MdnsText), configuration table enumerated by TLC, each row run through the real announce -> parse -> entry path, TLC monitor",
+                text="MdnsText.tla defines strings as atoms with byte widths so that the 32 byte limit is hit at every offset of every "
+                     "rune width, and the requirement AnnouncedOK / field equality / QR fields. TLC enumerates 2572 rows; the real "
+                     "manager announces, the library's own parseTxt and processMdnsEntry read the record back, the QR text is parsed "
+                     "with the SHIP;KEY:VALUE;..ENDSHIP; grammar, and the monitor evaluates the requirement on the real outputs.", ref="6.C16",
+                note="trusted: TLC; atoms are concretised by one representative each; the QR grammar parser is the harness' own"),
     "C10": dict(engine="hub", technique="TLA+ model checking of HubApi (TLC) + replay of TLC behaviours into a real hub.Hub, TLC monitor",
                 text="HubApi.tla models every HubInterface method, info-provider callback and mDNS report over two SKIs with a user-intent "
                      "ghost; TLC checks that a dial is only attempted with user intent and never after Shutdown for all operation "
@@ -108,10 +127,7 @@ NOT_APPLICABLE = {
            "code through its interfaces cannot observe it (DESIGN.md section 7); the Go race detector is a different technique",
 }
 NOT_YET = {
-    "C02": "CertGate table module not built yet (DESIGN.md 6.C02); nothing is claimed",
     "C05": "two-hub engine / Hub2 not built yet; nothing is claimed",
-    "C07": "EebusJson module not built yet; nothing is claimed",
-    "C16": "MdnsText not built yet; nothing is claimed",
 }
 
 
@@ -156,6 +172,9 @@ def main():
                  serves_properties=["C17"], kind_free_text="TLC model checking + resolver event sequences on the real MdnsManager + TLC monitor"),
             dict(name="avahi", path="spec/Avahi.tla spec/MonAvahi.tla harness/cmd/avahi tools/check_avahi.py",
                  serves_properties=["C19"], kind_free_text="TLC model checking + scripted runs of the real AvahiProvider on a fake daemon + TLC monitor"),
+            dict(name="tables", path="spec/CertGate.tla spec/EebusJson.tla spec/MdnsText.tla (+ generators and monitors) harness/cmd/{certgate,eebusjson,mdnstext} tools/check_{cert,json,text}.py",
+                 serves_properties=["C02", "C07", "C16"],
+                 kind_free_text="requirement tables / operator transcriptions enumerated by TLC, evaluated row by row on the real code, judged by a TLC monitor pass"),
             dict(name="timer", path="spec/Timer.tla spec/AbsTimer.tla spec/TimerGen.tla spec/MonTimer.tla harness/cmd/timer tools/check_timer.py",
                  serves_properties=["C14"], kind_free_text="TLC refinement check + script enumeration on real timers + TLC monitor pass"),
         ],
